@@ -34,6 +34,9 @@ import (
 // ErrAsyncNoSpace is returned when an write queue full if not writeForever flags.
 var ErrAsyncNoSpace = errors.New("async write queue is full")
 
+// ErrChannelClosed is returned by write operations on a channel that was closed without an error.
+var ErrChannelClosed = errors.New("netty: channel closed")
+
 // Channel is defines a server-side-channel & client-side-channel
 type Channel interface {
 	// ID channel id
@@ -175,7 +178,7 @@ func (c *channel) Write(message Message) error {
 		verifPoint(c, "write.closing")
 		select {
 		case <-c.ctx.Done():
-			return c.closeErr
+			return c.closedErr()
 		}
 	}
 
@@ -225,8 +228,8 @@ func (c *channel) Close(err error) {
 
 // Writev to write [][]byte for optimize syscall
 func (c *channel) Writev(p [][]byte) (n int64, err error) {
-	if nil != c.closeErr {
-		return 0, c.closeErr
+	if err = c.closedErr(); nil != err {
+		return 0, err
 	}
 
 	// enable async write
@@ -252,6 +255,10 @@ func (c *channel) Write1(p []byte) (n int, err error) {
 // CtxWrite1 channels with asynchronous write enabled, writes will block until the write is successfully sent to the queue or times out.
 // for synchronous write channels, SetDeadline will be called to ensure that the blocking write operation is interrupted after a timeout.
 func (c *channel) CtxWrite1(ctx context.Context, p []byte) (n int, err error) {
+	if err = c.closedErr(); nil != err {
+		return 0, err
+	}
+
 	// enable async write
 	if nil != c.writeQueue {
 		wn, err := c.asyncWrite(ctx, p, true)
@@ -280,6 +287,10 @@ func (c *channel) CtxWrite1(ctx context.Context, p []byte) (n int, err error) {
 // CtxWritev channels with asynchronous write enabled, writes will block until the write is successfully sent to the queue or times out.
 // for synchronous write channels, SetDeadline will be called to ensure that the blocking write operation is interrupted after a timeout.
 func (c *channel) CtxWritev(ctx context.Context, pv [][]byte) (n int64, err error) {
+	if err = c.closedErr(); nil != err {
+		return 0, err
+	}
+
 	// enable async write
 	if nil != c.writeQueue {
 		wn, err := c.asyncWritev(ctx, pv)
@@ -308,8 +319,8 @@ func (c *channel) CtxWritev(ctx context.Context, pv [][]byte) (n int64, err erro
 // ReadFrom reads data from r until EOF or error.
 // The return value n is the number of bytes read.
 func (c *channel) ReadFrom(r io.Reader) (n int64, err error) {
-	if nil != c.closeErr {
-		return 0, c.closeErr
+	if err = c.closedErr(); nil != err {
+		return 0, err
 	}
 
 	const MinRead = 1024
@@ -350,8 +361,8 @@ func (c *channel) Writer() io.Writer {
 }
 
 func (c *channel) write1(p []byte, clone bool) (n int, err error) {
-	if nil != c.closeErr {
-		return 0, c.closeErr
+	if err = c.closedErr(); nil != err {
+		return 0, err
 	}
 
 	// enable async write
@@ -394,7 +405,7 @@ func (c *channel) asyncWrite(ctx context.Context, p []byte, clone bool) (int64, 
 		case <-ctx.Done():
 			return 0, ctx.Err()
 		case <-c.ctx.Done():
-			return 0, c.closeErr
+			return 0, c.doneErr()
 		case c.writeQueue <- packet:
 			// write queue
 		}
@@ -403,7 +414,7 @@ func (c *channel) asyncWrite(ctx context.Context, p []byte, clone bool) (int64, 
 		case <-ctx.Done():
 			return 0, ctx.Err()
 		case <-c.ctx.Done():
-			return 0, c.closeErr
+			return 0, c.doneErr()
 		case c.writeQueue <- packet:
 			// write queue
 		default:
@@ -445,7 +456,7 @@ func (c *channel) asyncWritev(ctx context.Context, p [][]byte) (int64, error) {
 		case <-ctx.Done():
 			return 0, ctx.Err()
 		case <-c.ctx.Done():
-			return 0, c.closeErr
+			return 0, c.doneErr()
 		case c.writeQueue <- packet:
 			// write queue
 		}
@@ -454,7 +465,7 @@ func (c *channel) asyncWritev(ctx context.Context, p [][]byte) (int64, error) {
 		case <-ctx.Done():
 			return 0, ctx.Err()
 		case <-c.ctx.Done():
-			return 0, c.closeErr
+			return 0, c.doneErr()
 		case c.writeQueue <- packet:
 			// write queue
 		default:
@@ -473,6 +484,29 @@ func (c *channel) asyncWritev(ctx context.Context, p [][]byte) (int64, error) {
 // IsActive return true if the Channel is active and so connected
 func (c *channel) IsActive() bool {
 	return 0 == atomic.LoadInt32(&c.closed)
+}
+
+// closedErr reports why writes are refused: nil while the channel is open,
+// otherwise the error the channel was closed with (ErrChannelClosed if none).
+func (c *channel) closedErr() error {
+	if c.IsActive() {
+		return nil
+	}
+	if err := c.closeErr; nil != err {
+		return err
+	}
+	return ErrChannelClosed
+}
+
+// doneErr is the (never nil) error of a write that found the channel context done.
+func (c *channel) doneErr() error {
+	if err := c.closedErr(); nil != err {
+		return err
+	}
+	if err := c.ctx.Err(); nil != err {
+		return err
+	}
+	return ErrChannelClosed
 }
 
 // Transport get transport of channel
